@@ -98,7 +98,7 @@ def write_files(item, srcdir):
     for uri, text in item["files"].items():
         p = os.path.join(srcdir, uri.lstrip("/"))
         os.makedirs(os.path.dirname(p), exist_ok=True)
-        with open(p, "w", encoding="utf-8", newline="") as f:
+        with open(p, "w", encoding=item.get("encoding") or "utf-8", newline="") as f:
             f.write(text)
 
 
